@@ -13,7 +13,7 @@ pid, var = sys.argv[1], sys.argv[2]
 checks = sys.argv[3:] or [pid]
 rnd = os.environ.get('ROUND', '1')
 wt = '/tmp/wt/%s' % pid if rnd == '1' else '/tmp/wt/R%s' % pid[1:]
-src = ('/tmp/wt/out/%s/%s' if rnd == '1' else '/tmp/wt/out2/%s/%s') % (pid, var)
+src = ('/tmp/wt/out/%s/%s' if rnd == '1' else '/tmp/wt/out' + rnd + '/%s/%s') % (pid, var)
 dst = '/verif/seeded/%s-%s' % (pid, var) if rnd == '1' else '/verif/seeded/%s-%s%s' % (pid, var, rnd)
 env = dict(os.environ, GOFLAGS='-mod=mod', GOPROXY='off', GOSUMDB='off', GOTOOLCHAIN='local')
 def run(cmd, cwd=None, timeout=1800, extra=None):
@@ -23,7 +23,7 @@ def run(cmd, cwd=None, timeout=1800, extra=None):
 head = subprocess.check_output('git -C /repo rev-parse HEAD', shell=True, text=True).strip()
 run('git checkout -q --detach %s && git checkout -- . && git clean -fdq' % head, cwd=wt)
 patch = src + '/patch.diff'
-reb = ('/tmp/wt/rebased/%s-%s.diff' if rnd == '1' else '/tmp/wt/rebased2/%s-%s.diff') % (pid, var)
+reb = ('/tmp/wt/rebased/%s-%s.diff' if rnd == '1' else '/tmp/wt/rebased' + rnd + '/%s-%s.diff') % (pid, var)
 rebased = os.path.exists(reb)
 if rebased: patch = reb
 meta = {'property': pid, 'variant': var, 'round': int(rnd), 'repo_head': head, 'patch_rebased_onto_fix_commits': rebased}
